@@ -196,6 +196,8 @@ def declare(spec, cfg, poly=False, ocp=None, stage=None, with_method=True, paren
             return s if s.numel() == 1 else s[a[1]]
         if op == 'q':
             return b.qs[a[0]]
+        if op == 'xg':
+            return b.xs[a[0]]            # a whole declared (vector/matrix valued) state inside an expression (element-wise arithmetic)
         return {'t': st.t, 'T': st.T, 't0': st.t0, 'tf': st.tf, 'DT': st.DT, 'DTc': st.DT_control}[op]
 
     def wrap(op, e):
@@ -209,6 +211,12 @@ def declare(spec, cfg, poly=False, ocp=None, stage=None, with_method=True, paren
             return st.integral(mx(e.a[0]), grid='control')
         if op == 'sum':
             return st.sum(mx(e.a[0]), include_last=e.a[1])
+        if op == 'wsum':
+            kind, r, c, w = e.a[:4]
+            Mx = ca.reshape(ca.vcat([mx(x) for x in e.a[4:]]), r, c)
+            S = {'sum': lambda: st.sum(Mx), 'sum+': lambda: st.sum(Mx, include_last=True), 'at_tf': lambda: st.at_tf(Mx), 'at_t0': lambda: st.at_t0(Mx)}[kind]()
+            assert S.shape == (r, c), 'matrix valued %s returned shape %s' % (kind, S.shape)
+            return ca.dot(ca.reshape(ca.DM([float(v) for v in w]), r, c), S)
         if op == 'offset':
             return st.offset(mx(e.a[0]), e.a[1])
         if op == 'der':
